@@ -283,7 +283,9 @@ def _retire(repo, rep):
               "compiled", construct="functions-source", where=wh)
     nm = repo.func(ZT + "Macros.names")
     t = L.text(nm.node)
-    rep.check("for name in self.template.__dict__:" in t and
+    rep.check(("for name in self.template.__dict__:" in t or
+               "for name in list(self.template.__dict__):" in t or
+               "for name in tuple(self.template.__dict__):" in t) and
               "name.startswith('_render_')" in t, "R16.2", nm.qualname,
               "macro names are exactly the published _render_<name> entries",
               construct="names-source", where=L.where(nm))
